@@ -1,10 +1,14 @@
 (* C14, mirror model (DESIGN 7/C14 T2): the explicit stack machine of DFA.successors
-   (automata/fa/dfa.py:1466-1551) decision by decision, AFTER the one-line repair of DESIGN
+   (automata/fa/dfa.py:1470-1590) decision by decision, AFTER the one-line repair of DESIGN
    section 8 row 8 (the state is read from the stack after the loop).
    Stacks are lists with the top first (Python: deque, top last), so the current word is
    [rev c_chars].  sorted_symbols is the alphabet in ascending code order (codes = ranks under
-   the user's key), reversed for predecessors.  KeyError of symbol_succ on a foreign symbol and
-   IndexError on the empty alphabet are modelled (open known findings of the code).
+   the user's key - of ALL characters in play, so a start word may hold codes that lie between,
+   below or above the alphabet's), reversed for predecessors.  After the repairs e6d88f7 (helper
+   next_symbol: a symbol of the start word outside the alphabet is followed by the first alphabet
+   symbol after it in traversal order), 366d64a (should_yield is false after returning to a parent
+   whose next candidate is first_symbol) and d88b819 (early guard for the empty alphabet) neither
+   symbol_succ nor sorted_symbols[...] can raise.
    self.transitions[state] cannot raise for a valid DFA (C01: dfa_step_spec), so the step is ostep. *)
 From Coq Require Import List Arith Bool.
 From AV Require Import Base.Util Spec.Lang Spec.FA Spec.DictOrder Model.Decide Model.Product Model.Succ.
@@ -16,6 +20,13 @@ Fixpoint sym_succ (syms : list nat) (a : nat) : res (option nat) :=
   | [] => Err KeyErr
   | b :: r => if a =? b then Ok (hd_error r) else sym_succ r a
   end.
+
+(* next_symbol(symbol) (dfa.py:1503-1514): symbol_succ[symbol] when the symbol is in the alphabet,
+   otherwise the first symbol of sorted_symbols whose rank is greater (smaller when reverse) *)
+Definition next_sym (syms : list nat) (reverse : bool) (a : nat) : option nat :=
+  if memb a syms
+  then match sym_succ syms a with Ok n => n | Err _ => None end
+  else find (fun b => if reverse then b <? a else a <? b) syms.
 
 Record cfg := mkcfg {
   c_states : list (option nat);   (* state_stack, top first *)
@@ -62,12 +73,16 @@ Section Machine.
           Ok (y1, mkcfg (cstate :: c_states c) (a :: c_chars c) (Some first) true)
         else
           (* candidate is not None: no predecessor yield; next sibling *)
-          bind (sym_succ syms a) (fun n => Ok (y1, mkcfg (c_states c) (c_chars c) n true))
+          Ok (y1, mkcfg (c_states c) (c_chars c) (next_sym syms reverse a) true)
       | None =>
         (* candidate_state = None is never viable; predecessors yield here; traverse to parent *)
         let y2 := emit c state reverse true in
         match c_chars c with
-        | a :: cs => bind (sym_succ syms a) (fun n => Ok (y1 ++ y2, mkcfg below_states cs n true))
+        | a :: cs =>
+          (* back_at_parent (366d64a): after backing out of a symbol that comes before every alphabet
+             symbol the candidate is first_symbol again, but the word on the stack has been passed *)
+          let n := next_sym syms reverse a in
+          Ok (y1 ++ y2, mkcfg below_states cs n (negb (eqb_opt Nat.eqb n (Some first))))
         | [] => Err IndexErr
         end
       end
@@ -103,6 +118,15 @@ Definition init_cfg (m : dfa) (first : nat) (start : option word) (strict revers
                     (if reverse then None else Some first) (negb strict)
   end.
 
+(* if not sorted_symbols: (dfa.py:1483-1498) over an empty alphabet the empty word is the only word *)
+Definition empty_alphabet_guard (m : dfa) (start : option word) (strict reverse : bool) (lo : nat) : list word :=
+  let wanted := match start with
+                | None => true
+                | Some [] => negb strict          (* include_input *)
+                | Some (_ :: _) => reverse
+                end in
+  if wanted && (lo <=? 0) && memb (d_init m) (d_finals m) then [[]] else [].
+
 Definition machine_syms (m : dfa) (reverse : bool) : list nat :=
   if reverse then rev (set_of (d_syms m)) else set_of (d_syms m).
 
@@ -112,7 +136,7 @@ Definition succ_machine (fuel : nat) (m : dfa) (start : option word) (strict rev
   if negb fin then Err Infinite else
   bind (coreach_states m) (fun co =>
   match machine_syms m reverse with
-  | [] => Err IndexErr                        (* sorted_symbols[-1] *)
+  | [] => Ok (empty_alphabet_guard m start strict reverse lo)
   | first :: _ =>
     mloop m co (machine_syms m reverse) first reverse lo ohi fuel (init_cfg m first start strict reverse)
   end)).
